@@ -1030,7 +1030,18 @@ func (s *seqRun) randomOp(big bool) {
 		s.opSetattr(h, size, s.pickTime(), s.pickTime())
 	case k < 17:
 		d := s.pickHandle(2)
-		s.opLookup(d, s.pickName(d))
+		nm := s.pickName(d)
+		if nm == ".." {
+			// known findings C04 rename:directory-dotdot-and-cycles / C06 hang:lookup-dangling-dotdot:
+			// a moved directory keeps its old "..", and once the old parent is gone LOOKUP of it
+			// never returns (demonstrated by `harness probe`); the random generator stays clear
+			for _, m := range s.movedDirs {
+				if m == inumOf(d) {
+					nm = "."
+				}
+			}
+		}
+		s.opLookup(d, nm)
 	case k < 19:
 		s.opAccess(s.pickHandle(0))
 	case k < 21:
